@@ -9,7 +9,7 @@ RULE = ("cases = (state, action) pairs met along generated plans (legal, raw, ad
         "membership; non-trivial = transitions that change the state, distinct by (state digest, action)")
 ASSUMPTIONS = ["for terminate-on-invalid envs the model predicts state fields on invalid moves only where documented"]
 _P = mp.HistoryProp(PROPERTY, "predict", mp.C09Mon, n_quick=30, n_thorough=300, max_len=60,
-                    styles=("legalish", "chaos", "survive", "legal", "solveish", "crowded"), use_model_legality=True)
+                    styles=("legalish", "chaos", "survive", "legal", "solveish", "crowded", "solve"), use_model_legality=True)
 _P.export(globals())
 
 # ---- synthetic state tables: a model module may define
